@@ -2,6 +2,7 @@ import Gonnx.Gate
 import Gonnx.Generated.Registry
 import Gonnx.Spec.Arity
 import Gonnx.Spec.Types
+import Gonnx.Spec.Defaults
 /-
 C15 — every operator's input gate enforces arity and element types before computing.
 
@@ -33,6 +34,13 @@ def gateRule (d : OpDesc) (ins : List (Option DType)) : Res (List (Option DType)
   else if allOkFrom d.constraints 0 ins then .ok (ins ++ List.replicate (d.max - ins.length) none)
   else .error .inputType
 
+-- concrete instance shared by the non-vacuity examples below: the GRU descriptor (3 required and 3
+-- optional inputs, as in the registry) and a call that leaves one optional input empty and omits the last
+private def nv_gru : OpDesc :=
+  { name := "GRU", str := "gru operator", min := 3, max := 6,
+    constraints := [[.f32, .f64], [.f32, .f64], [.f32, .f64], [.f32, .f64], [.i32], [.f32, .f64]] }
+private def nv_ins : List (Option DType) := [some .f32, some .f64, some .f32, none, some .i32]
+
 theorem checkTypesFrom_spec (cons : List (List DType)) (i : Nat) (ins : List (Option DType))
     (h : i + ins.length ≤ cons.length) :
     checkTypesFrom cons i ins = if allOkFrom cons i ins then .ok () else .error .inputType := by
@@ -52,6 +60,11 @@ theorem checkTypesFrom_spec (cons : List (List DType)) (i : Nat) (ins : List (Op
       · simp only [hc, if_true, Bool.true_and]
         exact ih (i+1) (by omega)
       · simp [hc]
+
+-- non-vacuity: five entries checked against six constraint lists
+example : checkTypesFrom nv_gru.constraints 0 nv_ins =
+    if allOkFrom nv_gru.constraints 0 nv_ins then .ok () else .error .inputType :=
+  checkTypesFrom_spec nv_gru.constraints 0 nv_ins (by decide)
 
 theorem allOkFrom_replicate_none (cons : List (List DType)) (i k : Nat) :
     allOkFrom cons i (List.replicate k none) = true := by
@@ -91,6 +104,11 @@ theorem gate_spec (d : OpDesc) (h : WFdesc d) (ins : List (Option DType)) :
       rw [checkTypesFrom_spec _ _ _ (by simp; omega), allOkFrom_append_none]
       by_cases hok : allOkFrom d.constraints 0 ins = true <;> simp [hok]
 
+-- non-vacuity: the GRU descriptor is well-formed; the call is accepted and padded to six entries
+example : validateInputs nv_gru nv_ins = gateRule nv_gru nv_ins :=
+  gate_spec nv_gru (by decide) nv_ins
+example : gateRule nv_gru nv_ins = .ok [some .f32, some .f64, some .f32, none, some .i32, none] := by decide
+
 /-- the gate of a well-formed descriptor never panics -/
 theorem gate_no_panic (d : OpDesc) (h : WFdesc d) (ins : List (Option DType)) :
     validateInputs d ins ≠ .error .panic := by
@@ -98,6 +116,10 @@ theorem gate_no_panic (d : OpDesc) (h : WFdesc d) (ins : List (Option DType)) :
   split
   · simp
   · split <;> simp
+
+-- non-vacuity
+example : validateInputs nv_gru nv_ins ≠ .error .panic :=
+  gate_no_panic nv_gru (by decide) nv_ins
 
 /-- every error of the gate is an input error -/
 theorem gate_error_is_input_error (d : OpDesc) (h : WFdesc d) (ins : List (Option DType)) (e : Err)
@@ -108,6 +130,12 @@ theorem gate_error_is_input_error (d : OpDesc) (h : WFdesc d) (ins : List (Optio
   · split at he
     · cases he
     · right; cases he; rfl
+
+-- non-vacuity: two inputs where three are required; int64 where int32 is required
+example : Err.inputCount = .inputCount ∨ Err.inputCount = .inputType :=
+  gate_error_is_input_error nv_gru (by decide) [some .f32, some .f32] .inputCount (by decide)
+example : Err.inputType = .inputCount ∨ Err.inputType = .inputType :=
+  gate_error_is_input_error nv_gru (by decide) [some .f32, some .f32, some .f32, none, some .i64] .inputType (by decide)
 
 /-- accepted ⇒ the supplied entries are passed through in order and the rest is absent -/
 theorem gate_passthrough (d : OpDesc) (h : WFdesc d) (ins out : List (Option DType))
@@ -121,6 +149,11 @@ theorem gate_passthrough (d : OpDesc) (h : WFdesc d) (ins out : List (Option DTy
     · cases hok; exact ⟨rfl, by omega, by omega⟩
     · cases hok
 
+-- non-vacuity: the accepted call
+example : [some .f32, some .f64, some .f32, none, some .i32, none] = nv_ins ++ List.replicate (nv_gru.max - nv_ins.length) none ∧
+    nv_gru.min ≤ nv_ins.length ∧ nv_ins.length ≤ nv_gru.max :=
+  gate_passthrough nv_gru (by decide) nv_ins _ (by decide)
+
 /-- Concat rebuilds its descriptor from the call; it is well-formed for every input count -/
 theorem concat_wf (n : Nat) : WFdesc (concatDesc n) := by
   simp [WFdesc, concatDesc]
@@ -129,6 +162,10 @@ theorem concat_wf (n : Nat) : WFdesc (concatDesc n) := by
 (Concat's registered row is the not-yet-validated one; its real descriptor is `concatDesc`). -/
 theorem registry_wf : ∀ d ∈ Generated.registry, d.name ≠ "Concat" → WFdesc d := by
   decide
+
+-- non-vacuity of the bounded quantifiers of the registry obligations (`registry_wf`, `registry_arity_onnx`,
+-- `registry_types_pinned`, `arity_table_registered`): the tables they range over are not empty
+example : 2 ≤ (Generated.registry.filter (fun d => d.name ≠ "Concat")).length ∧ 2 ≤ Spec.onnxArity.length := by decide
 
 /-- the reflected Concat descriptors for input counts 0…8 are the modelled ones -/
 theorem concat_rows_eq : Generated.concatRows = (List.range 9).map concatDesc := by
@@ -146,6 +183,11 @@ theorem registry_arity_onnx :
 exactly the element types written down in `Spec/Types.lean` -/
 theorem registry_types_pinned :
     ∀ d ∈ Generated.registry, d.name ≠ "Concat" → Spec.typesOf d.name = some d.constraints := by
+  decide
+
+/-- **Obligation over the regenerated table:** the attribute state of a freshly looked-up operator (the
+defaults a node without attributes runs with) is the one written down in `Spec/Defaults.lean` -/
+theorem registry_defaults_pinned : Generated.defaults = Spec.defaultState := by
   decide
 
 /-- every operator of the table is registered -/
@@ -167,6 +209,10 @@ theorem lookup_unknown (reg : List OpDesc) (name : String) (h : name ∉ reg.map
     exact ⟨d, hd, by simpa using hn⟩
   simp [lookup, gate, hf]
 
+-- non-vacuity: "Gelu" is not in the running registry
+example : lookup Generated.registry "Gelu" = .error .unsupportedOp ∧ ∀ ins, gate Generated.registry "Gelu" ins = .error .unsupportedOp :=
+  lookup_unknown Generated.registry "Gelu" (by decide)
+
 /-- every name of the opset resolves, to the descriptor carrying that name -/
 theorem lookup_known (reg : List OpDesc) (name : String) (h : name ∈ reg.map (·.name)) :
     ∃ d, lookup reg name = .ok d ∧ d.name = name ∧ d ∈ reg := by
@@ -179,6 +225,10 @@ theorem lookup_known (reg : List OpDesc) (name : String) (h : name ∈ reg.map (
   | some d' =>
     refine ⟨d', by simp [lookup, hf], ?_, List.mem_of_find?_eq_some hf⟩
     simpa using List.find?_some hf
+
+-- non-vacuity: "GRU" is
+example : ∃ d, lookup Generated.registry "GRU" = .ok d ∧ d.name = "GRU" ∧ d ∈ Generated.registry :=
+  lookup_known Generated.registry "GRU" (by decide)
 
 /-- **C15 for the running registry**: for every registered operator and every input list the gate
 is the decision rule, never a panic. (PRelu adds its slope/x type equality after the generic gate.) -/
@@ -194,6 +244,10 @@ theorem gate_registry (name : String) (ins : List (Option DType))
     have hname : d'.name = name := by simpa using List.find?_some hf
     simp only [gate, hf, hc, hp, if_false]
     exact gate_spec d' (registry_wf d' hmem (by rw [hname]; exact hc)) ins
+
+-- non-vacuity: GRU in the running registry, with the call that uses the optional inputs
+example : gate Generated.registry "GRU" nv_ins = gateRule nv_gru nv_ins :=
+  gate_registry "GRU" nv_ins (by decide) (by decide) nv_gru (by decide)
 
 theorem gate_concat (ins : List (Option DType)) :
     gate Generated.registry "Concat" ins = gateRule (concatDesc ins.length) ins := by
@@ -214,6 +268,10 @@ theorem prelu_no_panic (d : OpDesc) (h : WFdesc d) (hmin : d.min = 2) (hmax : d.
     · subst hxs; simp [hok]
     · simp [hok, hxs]
   · simp [hok]
+
+-- non-vacuity: the PRelu descriptor (two required inputs), float32 x with an int32 slope
+example : preluValidate { name := "PRelu", min := 2, max := 2, constraints := [[.i32, .f32], [.i32, .f32]] } [some .f32, some .i32] ≠ .error .panic :=
+  prelu_no_panic _ (by decide) rfl rfl .f32 .i32
 
 -- non-vacuity: the hypotheses are met by a real row, and the rule computes on a concrete list
 example : WFdesc Generated.row3 ∧
